@@ -591,7 +591,7 @@ def build_chain(rng, recs, flag, sep_safe=False):
             if not sep_safe:
                 break
             name = " ".join(argv[:2]) if argv[0] == "cut" and "-o" in argv else argv[0]
-            if name not in SEP_DROP_OTHERS and argv[0] not in ("nest", "grep", "sec2gmt", "sort-within-records", "fill-down", "unsparsify", "regularize"):
+            if name not in SEP_DROP_OTHERS and not any("joink" in a for a in argv) and argv[0] not in ("nest", "grep", "sec2gmt", "sort-within-records", "fill-down", "unsparsify", "regularize"):
                 break
         if isinstance(w, str) and w.startswith("sec2gmt:"):
             # sec2gmt assigns only numeric values: keep it a reader by pointing it at a column of non-numeric text
@@ -707,6 +707,8 @@ def pipeline_oracle(ctx):
         ctx.dist("pipeline_flag:" + flag)
         for v in chain:
             ctx.dist("verb:" + v[0])
+        if st == "died" and b"type-assertion failed" in err:
+            st = 1        # an asserting_* function ended the process: a legitimate error exit
         if st not in (0, 1):
             ctx.violation({"broken": "pipeline run died (panic, exit inside a verb, or hang)", "kind": "pipeline", "args": args, "stdin": inp.decode("latin1"),
                            "stdin_hex": inp.hex(), "status": st, "stderr": err.decode("latin1")[-600:]}, found_input=False)
@@ -765,6 +767,9 @@ def run(ctx):
                        "(3) per-record programs (reads, derived assignments, put, unset, rename, reorder) rendered as mlr chains; full output record compared with the model "
                        "(assigned cells the model does not predict are wildcards). (4) oracle: chains of 1-3 verbs from a pool of ~90 verb invocations x 3 input formats x "
                        "8 non-JSON writers: every cell outside the chain's write set byte-identical and in original relative order. A case is non-trivial when distinct.")
+    ctx.cov["rule"] += (" (4b) separator-bearing inputs: DKVP values containing the pair separator (default '=', --ips ':', --ips-regex, multi-character --ifs/--ips) and "
+                        "key-less fields; CSV cells and a header cell with commas/quotes/edge spaces/line breaks via RFC quoting; TSV cells and a header cell with \\t \\n \\\\ "
+                        "escapes; each through the writers that can carry them (dkvp with matching separators, csv, tsv, xtab).")
     ctx.cov["trusted_base"] = ["Coq 8.16.1 kernel + vm_compute", "no axioms (Print Assumptions: closed under the global context)",
                                "implrun driver + add-only export VerifState (pkg/mlrval/zz_verif_c03.go, tag verif)", "python harness (output-format parsers of the oracle)",
                                "C06 model of inference (only as the instantiation of the inferrer parameter; the theorems hold for every inferrer)"]
